@@ -233,6 +233,20 @@ def bounded(tier, seed):
         f = split_case(sig)
         if f:
             return n, f, {'signature': sig}
+    # the result for a signature does not depend on what was split before: an array signature first (its splitting recurses on
+    # the rest), then that rest on its own; and everything once more in the reverse order
+    tails = ['(ii)s', 'iu', 'a{sv}(ss)i', 'sas', '(i(ss))yy', 'aiai', 'vvv', '{ss}', 'i']
+    for t_ in tails:
+        for sig in ('a' + t_, 'aa' + t_, t_, 'a' + t_, t_):
+            n += 1
+            f = split_case(sig)
+            if f:
+                return n, f + ' (after related signatures were split)', {'signature': sig}
+    for sig in reversed(list(all_signatures(4))):
+        n += 1
+        f = split_case(sig)
+        if f:
+            return n, f + ' (second pass, reverse order)', {'signature': sig}
     # the limits of the grammar: 32 levels of struct / array / dict-entry nesting, signatures of 255 characters
     limits = ['(' * 32 + 'i' + ')' * 32, 'a' * 32 + 'i', 'a{s' * 32 + 'v' + '}' * 32, '(' * 31 + 'i' + ')' * 31, 'a(' * 16 + 'y' + ')' * 16,
               '(' * 32 + 'ii' + ')' * 32 + 'i', 'i' * 255, 'ai' * 127 + 'y', '(' + 'i' * 253 + ')', 'a{s(' + 'i' * 248 + ')}', '(i)' * 85, 'v' * 255]
